@@ -126,6 +126,8 @@ def main(argv):
             f["kind"] = "the real conversion differs from the specification (spec_to_go / spec_echo)"
             f["replay"] = ("input grammar: '<op> <GoTargetType> <record>'; record = R id typename n {key value}; "
                            "values I<int> F<float bits> S<hex> Q<hex symbol> B0/B1 Y<hex raw> T<unix nanos> Z(nil) U<uint64> C<char> A n v.. H id n {key v} X<id>(same record again); "
+                           "paths <Target>: the field table zygo builds for a record of that type (D = DetOrder, M = JsonTagMap: key=EmbedPath field indices); "
+                           "slot <ty> <value>: SexpToGoStructs(value, new(T), env, nil, 1, _) of a bare value into a bare slot, type grammar i j f s b y t L<ty> P:<struct> V:<struct> N:<iface> M<ty>; "
                            "togo: SexpToGoStructs(record, &Target{}) / (togo r); echo: (_method recv Echo<Target>: r); mix: togo repeated on fresh records; "
                            "hist <Target> <record> then steps G id = (togo r_id), M id = a Go method called ON r_id (converted implicitly when no Go object is attached), P id = r_id passed to a Go method that renders its argument, S id key value = (hset r_id key value), E id n p.. newid = a Go method on r_id returns the pointer at field path p (none = the receiver itself) and the result is bound as record newid; observables of the G/P steps joined by ';'")
             c.violation(f)
